@@ -244,9 +244,18 @@ StressVerdict(post, children) ==
     \cup V(res.ok, "C18_launch_failed_under_stress")
     \cup V(children = "none", "C12_reaped")
 
+\* capture() of pipelines beside a thread that keeps starting unrelated, longer-living programs (they live 1.5 s): a
+\* capture returns when its own commands are gone -- none took as long as a bystander lives
+CapStressVerdict(post, children) ==
+    V(res.max_us < 1000000, "C01_capture_never_finishes")
+    \cup V(res.max_us < 1000000, "C08_eof_not_propagated")
+    \cup V(res.ok, "C13_starts")
+    \cup V(children = "none", "C12_reaped")
+
 Verdict(post, children) ==
   CASE kind = "pipeline" -> PipelineVerdict(Tab(post), children)
     [] kind = "stress" -> StressVerdict(Tab(post), children)
+    [] kind = "capstress" -> CapStressVerdict(Tab(post), children)
     [] kind = "race" -> RaceVerdict(Tab(post), children)
     [] OTHER -> HandleVerdict(Tab(post), children)
 Sanity == IF Hung /\ ~HangExplained THEN {"watchdog_without_explanation"} ELSE {}
